@@ -1,0 +1,66 @@
+// MIT License
+//
+// Copyright (c) 2022-2026 GoAkt Team
+//
+// Permission is hereby granted, free of charge, to any person obtaining a copy
+// of this software and associated documentation files (the "Software"), to deal
+// in the Software without restriction, including without limitation the rights
+// to use, copy, modify, merge, publish, distribute, sublicense, and/or sell
+// copies of the Software, and to permit persons to whom the Software is
+// furnished to do so, subject to the following conditions:
+//
+// The above copyright notice and this permission notice shall be included in all
+// copies or substantial portions of the Software.
+//
+// THE SOFTWARE IS PROVIDED "AS IS", WITHOUT WARRANTY OF ANY KIND, EXPRESS OR
+// IMPLIED, INCLUDING BUT NOT LIMITED TO THE WARRANTIES OF MERCHANTABILITY,
+// FITNESS FOR A PARTICULAR PURPOSE AND NONINFRINGEMENT. IN NO EVENT SHALL THE
+// AUTHORS OR COPYRIGHT HOLDERS BE LIABLE FOR ANY CLAIM, DAMAGES OR OTHER
+// LIABILITY, WHETHER IN AN ACTION OF CONTRACT, TORT OR OTHERWISE, ARISING FROM,
+// OUT OF OR IN CONNECTION WITH THE SOFTWARE OR THE USE OR OTHER DEALINGS IN THE
+// SOFTWARE.
+
+//go:build verif
+
+package actor
+
+import (
+	"time"
+
+	"github.com/tochemey/goakt/v4/internal/address"
+	"github.com/tochemey/goakt/v4/internal/remoteclient"
+	"github.com/tochemey/goakt/v4/internal/types"
+	"github.com/tochemey/goakt/v4/log"
+	"github.com/tochemey/goakt/v4/remote"
+)
+
+// VerifSetupRemoting runs the real setupRemoting of a bare actor system that
+// carries only the given remote configuration and returns the remoting client
+// it builds (built-in protocol serializers followed by the serializers
+// forwarded from the configuration). The returned function releases the client
+// and the failure drain. Verification harness only.
+func VerifSetupRemoting(cfg *remote.Config) (remoteclient.Client, func(), error) {
+	x := &actorSystem{remoteConfig: cfg, registry: types.NewRegistry(), logger: log.DiscardLogger}
+	if err := x.setupRemoting(); err != nil {
+		return nil, func() {}, err
+	}
+	return x.remoting, func() {
+		x.remoting.Close()
+		x.stopCoalescedFailureDrain()
+	}, nil
+}
+
+// VerifNewTerminated builds a Terminated message for the actor at the given
+// address string (empty: no path) stamped with the given time. Verification
+// harness only.
+func VerifNewTerminated(addr string, at time.Time) (*Terminated, error) {
+	var p Path
+	if addr != "" {
+		a, err := address.Parse(addr)
+		if err != nil {
+			return nil, err
+		}
+		p = newPath(a)
+	}
+	return &Terminated{actorPath: p, terminatedAt: at}, nil
+}
